@@ -71,7 +71,11 @@ func signPrivateKeyRSAPSS(digest []byte, hash crypto.Hash, key jwk.Key) ([]byte,
 	if key.Raw(rsaKey) != nil {
 		return nil, ErrKeyTypeMismatch
 	}
-	return rsa.SignPSS(rand.Reader, rsaKey, hash, digest, nil)
+	// The salt is as long as the hash, as required for the PS256, PS384 and PS512 algorithms (RFC 7518, section 3.5)
+	return rsa.SignPSS(rand.Reader, rsaKey, hash, digest, &rsa.PSSOptions{
+		SaltLength: rsa.PSSSaltLengthEqualsHash,
+		Hash:       hash,
+	})
 }
 
 func signPrivateKeyECDSA(digest []byte, algorithm string, key jwk.Key) ([]byte, error) {
